@@ -190,11 +190,11 @@ func VC02_LocRIBOrders3() {
 }
 
 // lighter attribute domain: only LOCAL_PREF and MED symbolic (8 bit), everything else concrete and distinct per peer
-func c02RibPathLite(i int) *route.Path {
+func c02RibPathLite(i int, id uint32) *route.Path {
 	nh := bnet.IPv4(uint32(0x0a000000 + i))
 	src := bnet.IPv4(uint32(0xc0000200 + i))
 	return &route.Path{Type: route.BGPPathType, BGPPath: &route.BGPPath{
-		BGPPathA: &route.BGPPathA{NextHop: &nh, Source: &src, LocalPref: uint32(ndU8() & 3), MED: uint32(ndU8() & 3), BGPIdentifier: uint32(100 - i)},
+		BGPPathA: &route.BGPPathA{NextHop: &nh, Source: &src, LocalPref: uint32(ndU8() & 3), MED: uint32(ndU8() & 3), BGPIdentifier: id},
 		ASPathLen: 2,
 	}}
 }
@@ -204,8 +204,9 @@ func VC02_LocRIBExtra() {
 	var ps []*route.Path
 	var extra *route.Path
 	if vParam("lite") == 1 {
-		ps = []*route.Path{c02RibPathLite(1), c02RibPathLite(2), c02RibPathLite(3)}
-		extra = c02RibPathLite(4)
+		// identifiers chosen so that the extra path can be an equal-cost member without being the best path
+		ps = []*route.Path{c02RibPathLite(1, 10), c02RibPathLite(2, 30), c02RibPathLite(3, 50)}
+		extra = c02RibPathLite(4, 20+uint32(ndU8()&1)*20)
 	} else {
 		ps = []*route.Path{c02RibPath(1), c02RibPath(2), c02RibPath(3)}
 		extra = c02RibPath(4)
